@@ -238,6 +238,10 @@ func runC07Case(rt *rapid.T) {
 				}
 			}
 			o.Muts = append(o.Muts, model.Mut{At: at, Op: mo})
+			if (mo.K == kDel || mo.K == kStore) && irange(rt, 0, 5, "gcAfterMut") == 0 {
+				// the entry just unlinked may still sit in the traversal's private copy: collect and reuse memory now
+				o.Muts = append(o.Muts, model.Mut{At: at, Op: model.Op{K: model.HGC}})
+			}
 		}
 	}
 	ts := api.Table()
